@@ -29,10 +29,11 @@ class Written:
     pass
 
 
-def write_file(fspec, fs, env, name, plan=None, observer=None):
-    """Run the real writer.  Returns a Written record (or raises what the writer raised)."""
+def write_file(fspec, fs, env, name, plan=None, observer=None, prebuilt=None):
+    """Run the real writer.  Returns a Written record (or raises what the writer raised).
+    prebuilt: a Bf3File built earlier from the same spec (a retry writes the SAME object again)."""
     w = Written()
-    obj = G.build_bf3(fspec["obj"], env)
+    obj = prebuilt if prebuilt is not None else G.build_bf3(fspec["obj"], env)
     w.model = G.snapshot_bf3(obj)
     w.rng = prov.SimRng(fspec.get("rng", 0), fspec.get("script"))
     env.install_rng(w.rng)
